@@ -387,8 +387,10 @@ def suite_roles_burst(tier, seed):
             await env.close(st)
             sc.close()
         return bad
+    directed = [[(env.PUBS[1], "w"), (env.PUBS[1], "rw"), (env.PUBS[1], "w")],
+                [(env.PUBS[1], "r"), (env.PUBS[2], "w"), (env.PUBS[1], ""), (env.PUBS[1], "r"), (env.PUBS[2], "w")]]
     for backend in ("sql", "kv"):
-        for _ in range(6 if tier == "quick" else 60):
+        for k_ in range(6 if tier == "quick" else 60):
             pks = [env.PUBS[1]] if rng.random() < 0.6 else [env.PUBS[1], env.PUBS[2]]
             n = rng.randint(2, 6)
             seq = []
@@ -400,6 +402,8 @@ def suite_roles_burst(tier, seed):
                 else:
                     roles = rng.choice(["w", "r", "rw", "s", "a", ""])
                 seq.append((pk, roles))
+            if k_ < len(directed):
+                seq = list(directed[k_])                   # A, B, A is always among the cases
             bad = env.run(one(backend, seq))
             case = {"backend": backend, "assignments": [[p[:8], r] for p, r in seq]}
             aba = any(seq[i][0] == seq[j][0] == seq[k][0] and seq[i][1] == seq[k][1] != seq[j][1]
